@@ -400,10 +400,10 @@ theorem C12_batching_BinaryPrecisionRecallCurve :
     BatchingSame binaryPrCurveC catPair ∧ AnyOrder binaryPrCurveC (fun _ => True) :=
   ⟨batchingSame_of_statCat _ FamStat.statCat_pairSamples, anyOrder_of_outPerm _ outPerm_binaryPrCurve⟩
 
-/-- MulticlassPrecisionRecallCurve; with `num_classes=None` the class count is the width of the first
-    cached row, hence the uniform-width side condition (always true for streams `torch.cat` accepts). -/
+/-- MulticlassPrecisionRecallCurve; with `num_classes=None` the class count is the width of the cached
+    rows (`torch.cat` raises when they differ — in either order). -/
 theorem C12_batching_MulticlassPrecisionRecallCurve (nc0 : Option Nat) :
-    BatchingSame (multiclassPrCurveC nc0) catPair ∧ AnyOrder (multiclassPrCurveC nc0) UniformWidth :=
+    BatchingSame (multiclassPrCurveC nc0) catPair ∧ AnyOrder (multiclassPrCurveC nc0) (fun _ => True) :=
   ⟨batchingSame_of_statCat _ FamStat.statCat_rowSamples, anyOrder_of_outPerm _ (outPerm_multiclassPrCurve nc0)⟩
 
 /-- MultilabelPrecisionRecallCurve. -/
@@ -547,7 +547,7 @@ example :
   · show (samplesOf (catSamples (α := TaskSample)) bs).Perm (samplesOf catSamples bs')
     rw [samplesOf_catSamples, samplesOf_catSamples]; decide +kernel
   · show BinaryLabels 1 (samplesOf (catSamples (α := TaskSample)) bs)
-    rw [samplesOf_catSamples]; decide +kernel
+    rw [samplesOf_catSamples]; unfold BinaryLabels; decide +kernel
 
 /-- MultilabelAUPRC (row samples): `2 + 1` rows vs the rows reversed in one batch. -/
 example :
